@@ -941,7 +941,7 @@ func TestC17ThresholdRSA(t *testing.T) {
 	}
 	vlib.Selftest("c17 RSA key pool loads and validates (crypto/rsa.Validate)", "ok")
 	sub := "tssrsa/drawn"
-	vlib.Check(t, vlib.N(200, 220), func(t *rapid.T) {
+	vlib.Check(t, vlib.N(160, 200), func(t *rapid.T) {
 		var l int
 		switch rapid.IntRange(0, 3).Draw(t, "lKind") {
 		case 0:
